@@ -41,6 +41,39 @@ def is_not_fn(F, name, crate_prefix):
     return None
 
 
+LOSSY_NUM = re.compile(r"::(to_f64|to_f32|from_f64|from_f32|from_f64_retain|from_f32_retain|to_i64|to_i32|to_u64|to_u32|to_i128|round|round_dp|trunc|floor|ceil|normalize|rescale|to_lowercase|to_uppercase|trim|trim_matches|replace)$|ToPrimitive>::to_f(32|64)$|FromPrimitive>::from_f(32|64)$")
+
+
+def lossy_custom(F, tid, path):
+    """reason when the function named by a serialize_with / deserialize_with attribute converts the value through a
+    narrower representation (a Decimal through f64, a string through a case fold ...); None when nothing of the kind is found"""
+    last = path.split("::")[-2:] if "::" in path else [path]
+    crate = tid.split("::")[0]
+    cands = [g for g in F.fns.values() if g.id.startswith(crate + "::") and g.kind != "Closure" and g.short.split("::")[-len(last):] == last]
+    if not cands:
+        return "could not be found in the workspace (not verifiable)"
+    for g in cands:
+        seen, work = set(), [g.id]
+        while work:
+            x = work.pop()
+            if x in seen or x not in F.fns:
+                continue
+            seen.add(x)
+            gb = Body(F.fns[x])
+            for bi, t in gb.calls():
+                nm = callee_name(t) or ""
+                if LOSSY_NUM.search(nm):
+                    return "passes the value through %s: digits beyond that representation are lost (a decimal with more than ~15 significant digits changes)" % nm.split("::")[-1]
+                cid = callee_id(t) or ""
+                if cid.startswith(crate + "::") and len(seen) < 30:
+                    work.append(cid)
+            for blk in gb.blocks:
+                for st in blk["st"]:
+                    if st["k"] == "assign" and st["rv"]["k"] == "cast" and st["rv"].get("ck") in ("FloatToInt", "IntToFloat", "FloatToFloat"):
+                        return "casts between integer and floating point"
+    return None
+
+
 def run(ctx):
     F = ctx.F
     ctx.rule("R18.1", "serde attributes of every type reachable from GdsLibrary / LefLibrary are loss-free and symmetric")
@@ -120,9 +153,13 @@ def run(ctx):
                     problems.append("unconditional skip_serializing on data field of type %s: the value is never written" % tys)
                 for k in ONE_SIDED:
                     if k in items and not (k in ("skip",) and unsupported):
-                        if k == "serialize_with" and "deserialize_with" in items:
-                            continue
-                        if k == "deserialize_with" and "serialize_with" in items:
+                        if k in ("serialize_with", "deserialize_with") and "serialize_with" in items and "deserialize_with" in items:
+                            # a custom pair: not one-sided; its two halves are inspected for value-changing conversions
+                            why = lossy_custom(F, tid, items[k])
+                            if why:
+                                problems.append("custom %s = %s %s" % (k, items[k], why))
+                            else:
+                                ctx.note("R18.1", "%s: custom %s %s accepted (no value-changing conversion found in it)" % (fname, k, items[k]))
                             continue
                         problems.append("attribute serde(%s) is one-sided or not verifiable" % k)
                 if "skip_serializing_if" in items:
